@@ -7,8 +7,9 @@
 (* lines are accepted and counted by the runner.                                            *)
 EXTENDS Plan, Json, IOUtils
 
-VARIABLES l, solved, verdicts, expects
-vars == <<l, solved, verdicts, expects>>
+VARIABLES l, solved, verdicts, expects,
+          xs      \* C19: state of the execution being replayed (see the executor section below)
+vars == <<l, solved, verdicts, expects, xs>>
 
 Trace == ndJsonDeserialize(IOEnv.TRACE)
 PROP == IF "VPROP" \in DOMAIN IOEnv THEN IOEnv.VPROP ELSE "ALL"
@@ -18,19 +19,19 @@ Chk(ps, name, cond) ==
   ELSE TRUE
 
 SolutionOK(sol) ==
-  /\ Chk({"C01"}, "ClausesHold", ClausesHold(sol) = TRUE)
-  /\ Chk({"C01"}, "AssertsHold", AssertsHold(sol) = TRUE)
+  /\ Chk({"C01", "C19"}, "ClausesHold", ClausesHold(sol) = TRUE)
+  /\ Chk({"C01", "C19"}, "AssertsHold", AssertsHold(sol) = TRUE)
   /\ Chk({"C01"}, "BoolDefsHold", BoolDefsHold(sol) = TRUE)
-  /\ Chk({"C01"}, "LraDefsHold", LraDefsHold(sol) = TRUE)
+  /\ Chk({"C01", "C19"}, "LraDefsHold", LraDefsHold(sol) = TRUE)
   /\ Chk({"C01"}, "RdlDefsHold", RdlDefsHold(sol) = TRUE)
   /\ Chk({"C01", "C16"}, "OpsHold", OpsHold(sol) = TRUE)
   /\ Chk({"C03"}, "Justified", Justified(sol) = TRUE)
   /\ Chk({"C03"}, "SupportAcyclic", SupportAcyclic(sol) = TRUE)
-  /\ Chk({"C04"}, "NoSvOverlap", NoSvOverlap(sol) = TRUE)
+  /\ Chk({"C04", "C19"}, "NoSvOverlap", NoSvOverlap(sol) = TRUE)
   /\ Chk({"C04"}, "SvTimelineAgrees", SvTimelineAgrees(sol) = TRUE)
-  /\ Chk({"C05"}, "RrWithinCapacity", RrWithinCapacity(sol) = TRUE)
+  /\ Chk({"C05", "C19"}, "RrWithinCapacity", RrWithinCapacity(sol) = TRUE)
   /\ Chk({"C05"}, "RrTimelineAgrees", RrTimelineAgrees(sol) = TRUE)
-  /\ Chk({"C06"}, "TemporallyWellFormed", TemporallyWellFormed(sol) = TRUE)
+  /\ Chk({"C06", "C19"}, "TemporallyWellFormed", TemporallyWellFormed(sol) = TRUE)
 
 \* C16: the value a generated program must give to one of its top-level variables ("expect" lines precede the problem)
 ExpectsFor(name) == {x \in expects : x.name = name}
@@ -53,26 +54,77 @@ ObjExpectOK(sol) ==
                /\ Cardinality(Domain(sol, v)) = 1
                /\ (NamesOf(sol, Domain(sol, v)) \ {x.var}) \subseteq SeqRange(x.allowed))
 
-Init == l = 1 /\ solved = 0 /\ verdicts = 0 /\ expects = {}
+\* ---- C19: the executor ---------------------------------------------------------------------------------------------------------
+\* xs: [time (Rat), started / ended (sets of atom ids), sAt / eAt (the values frozen when they started / ended),
+\*      reqS / reqE (atoms the client asked to delay during the current tick() call), plan (last projection)]
+X0 == [time |-> Zero, started |-> {}, ended |-> {}, sAt |-> << >>, eAt |-> << >>, reqS |-> {}, reqE |-> {}, plan |-> << >>]
+XIds(ps) == {ps[i][1] : i \in DOMAIN ps}
+XVal(ps, id) == (CHOOSE i \in DOMAIN ps : ps[i][1] = id)
+XStep(ev) ==
+  CASE ev.e = "x_plan" ->
+         /\ Chk({"C19"}, "NothingStartedMoved",
+                \A i \in DOMAIN ev.atoms :
+                   LET a == ev.atoms[i]
+                   IN /\ a.id \in xs.started => IREqv(a.s, xs.sAt[a.id])
+                      /\ a.id \in xs.ended => IREqv(a.e, xs.eAt[a.id]))
+         /\ Chk({"C19"}, "PlanTime", ev.t = xs.time)
+         /\ xs' = [xs EXCEPT !.plan = ev.atoms]
+    [] ev.e = "x_call_tick" -> xs' = [xs EXCEPT !.reqS = {}, !.reqE = {}]
+    [] ev.e \in {"x_starting", "x_ending"} -> UNCHANGED xs
+    [] ev.e = "x_dont_start" -> xs' = [xs EXCEPT !.reqS = xs.reqS \cup XIds(ev.req)]
+    [] ev.e = "x_dont_end" -> xs' = [xs EXCEPT !.reqE = xs.reqE \cup XIds(ev.req)]
+    [] ev.e = "x_start" ->
+         /\ Chk({"C19"}, "StartedOnce", XIds(ev.atoms) \cap xs.started = {})
+         /\ Chk({"C19"}, "NotStartedBeforeItsTime", \A i \in DOMAIN ev.atoms : IRLe(ev.atoms[i][2], IROf(xs.time)))
+         /\ Chk({"C19"}, "NotStartedWhenDelayed", XIds(ev.atoms) \cap xs.reqS = {})
+         /\ xs' = [xs EXCEPT !.started = xs.started \cup XIds(ev.atoms),
+                             !.sAt = [id \in (DOMAIN xs.sAt) \cup XIds(ev.atoms) |->
+                                        IF id \in XIds(ev.atoms) THEN ev.atoms[XVal(ev.atoms, id)][2] ELSE xs.sAt[id]]]
+    [] ev.e = "x_end" ->
+         /\ Chk({"C19"}, "EndedOnce", XIds(ev.atoms) \cap xs.ended = {})
+         /\ Chk({"C19"}, "StartedBeforeEnded", XIds(ev.atoms) \subseteq xs.started)
+         /\ Chk({"C19"}, "NotEndedBeforeItsTime", \A i \in DOMAIN ev.atoms : IRLe(ev.atoms[i][2], IROf(xs.time)))
+         /\ Chk({"C19"}, "NotEndedWhenDelayed", XIds(ev.atoms) \cap xs.reqE = {})
+         /\ xs' = [xs EXCEPT !.ended = xs.ended \cup XIds(ev.atoms),
+                             !.eAt = [id \in (DOMAIN xs.eAt) \cup XIds(ev.atoms) |->
+                                        IF id \in XIds(ev.atoms) THEN ev.atoms[XVal(ev.atoms, id)][2] ELSE xs.eAt[id]]]
+    [] ev.e = "x_tick" ->
+         /\ Chk({"C19"}, "TimeAdvancesByOneUnit", ev.time = Add(xs.time, One))
+         /\ xs' = [xs EXCEPT !.time = ev.time]
+    [] ev.e = "x_failure" ->      \* the failed atoms leave the plan: they are no longer tracked
+         xs' = [xs EXCEPT !.started = xs.started \ SeqRange(ev.atoms), !.ended = xs.ended \ SeqRange(ev.atoms)]
+    [] ev.e = "x_exception" -> UNCHANGED xs
+    [] ev.e = "x_done" ->
+         /\ Chk({"C19"}, "EverythingDispatched",
+                ev.alive = 1 =>
+                  \A i \in DOMAIN xs.plan :
+                     LET a == xs.plan[i]
+                     IN /\ IRLt(a.s, IROf(xs.time)) => a.id \in xs.started
+                        /\ IRLt(a.e, IROf(xs.time)) => a.id \in xs.ended)
+         /\ UNCHANGED xs
+
+Init == l = 1 /\ solved = 0 /\ verdicts = 0 /\ expects = {} /\ xs = X0
 
 Next ==
   /\ l <= Len(Trace)
   /\ l' = l + 1
   /\ LET ev == Trace[l]
-     IN CASE ev.e = "expect" -> expects' = expects \cup {ev} /\ UNCHANGED <<solved, verdicts>>
+     IN CASE ev.e \in {"x_plan", "x_call_tick", "x_starting", "x_ending", "x_dont_start", "x_dont_end", "x_start", "x_end",
+                        "x_tick", "x_failure", "x_exception", "x_done"} -> XStep(ev) /\ UNCHANGED <<solved, verdicts, expects>>
+          [] ev.e = "expect" -> expects' = expects \cup {ev} /\ UNCHANGED <<solved, verdicts, xs>>
           [] ev.e = "verdict" ->
                /\ Chk({"C16"}, "ValidProgramSolved",
                       (\E x \in ExpectsFor(ev.name) : x.kind \in {"arith", "bool"}) => ev.verdict = "solved")
                /\ Chk({"C17"}, "SolvableIffSomeInstanceFits",
                       \A x \in {y \in ExpectsFor(ev.name) : y.kind = "obj"} : (x.sat = 1) = (ev.verdict = "solved"))
-               /\ verdicts' = verdicts + 1 /\ UNCHANGED <<solved, expects>>
+               /\ verdicts' = verdicts + 1 /\ xs' = X0 /\ UNCHANGED <<solved, expects>>
           [] ev.e = "solution" ->
                /\ SolutionOK(ev)
                /\ Chk({"C16", "C17"}, "ExpectedValue", ExpectedValueOK(ev) = TRUE)
                /\ ObjExpectOK(ev)
-               /\ solved' = solved + 1 /\ UNCHANGED <<verdicts, expects>>
-          [] ev.e \in {"done", "timeout", "wide", "error"} -> UNCHANGED <<solved, verdicts, expects>>
-          [] ev.e = "abort" -> Chk({"C18", "C01", "C02", "C03", "C04", "C05", "C06", "C16", "C17"}, "NoAbort", FALSE) /\ UNCHANGED <<solved, verdicts, expects>>
+               /\ solved' = solved + 1 /\ UNCHANGED <<verdicts, expects, xs>>
+          [] ev.e \in {"done", "timeout", "wide", "error"} -> UNCHANGED <<solved, verdicts, expects, xs>>
+          [] ev.e = "abort" -> Chk({"C18", "C01", "C02", "C03", "C04", "C05", "C06", "C16", "C17", "C19"}, "NoAbort", FALSE) /\ UNCHANGED <<solved, verdicts, expects, xs>>
 
 Spec == Init /\ [][Next]_vars
 
